@@ -17,7 +17,7 @@ def specs_all(tier):
             for lref in (False, True):
                 for rref in (False, True):
                     for rhs_other in (False, True):
-                        for req in (["Op"], ["OpAssign"], ["Op", "OpAssign"]):
+                        for req in (["Op"], ["OpAssign"], ["Op", "OpAssign"], ["OpAssign", "Op"]):
                             k += 1
                             out.append({"op": op, "base": "binary", "lref": lref, "rref": rref, "other": rhs_other, "req": req,
                                         "shape": shape, "omit_rhs": (not rhs_other and not lref and not rref and k % 2 == 0)})
@@ -223,7 +223,7 @@ def run(rep, tier, rng):
     rep.canary = any(b[0].startswith("clone") for b in check_case(ok.meta["spec"], ev))
     rep.exhaustive = True
     rep.rule = ("complete over 10 operators x 4 base forms (T/&T x Rhs/&Rhs) x Rhs in {Self, other type} x requested sets {Op}, "
-                "{OpAssign}, {Op,OpAssign}, plus base `impl OpAssign<Rhs|&Rhs>` with {Op}; plain and generic impls (where-clauses, "
+                "{OpAssign}, {Op,OpAssign} (listed in both orders), plus base `impl OpAssign<Rhs|&Rhs>` with {Op}; plain and generic impls (where-clauses, "
                 "`Self` in where-clause / Output; Rhs defaulted); user bodies build non-commutative terms and log calls, operand "
                 "clones are logged by the operand types. Every generated owned/reference/assign form is applied and its result, "
                 "user-call count, clone multiset/order and borrowed operands compared with the expectation. evaluations = forms "
